@@ -24,8 +24,11 @@ pub type Span<'s> = LocatedSpan<&'s str>;
 // The grammar is recursive and so are the type checker and the evaluator that walk the resulting tree:
 // bound the nesting depth and the length of operator chains, otherwise a long enough expression (a rule
 // posted to the API, a config file) overflows the stack and aborts the process.
-const MAX_DEPTH: usize = 64;
+const MAX_DEPTH: usize = 32;
 const MAX_CHAIN: usize = 255;
+// An operator chain becomes a left-deep tree with one level per operator and every parenthesis may hold a
+// chain of its own, so the two limits above do not bound the depth of the tree: check it once it is built.
+const MAX_TREE_DEPTH: usize = 128;
 thread_local! {
     static DEPTH: std::cell::Cell<usize> = std::cell::Cell::new(0);
 }
@@ -515,9 +518,19 @@ rule!(root(i)->Value, {
 });
 
 pub fn parse(input: &str) -> Result<Value, SyntaxError> {
-    root::<VerboseError<Span>>(Span::new(input))
+    let value = root::<VerboseError<Span>>(Span::new(input))
         .map(|x| x.1)
-        .map_err(|err| SyntaxError::new(err, input))
+        .map_err(|err| SyntaxError::new(err, input))?;
+    let depth = value.depth();
+    if depth > MAX_TREE_DEPTH {
+        return Err(SyntaxError {
+            msg: format!(
+                "expression is nested too deeply: {} levels, at most {} are supported",
+                depth, MAX_TREE_DEPTH
+            ),
+        });
+    }
+    Ok(value)
 }
 
 pub struct SyntaxError {
